@@ -9,7 +9,7 @@ use std::path::PathBuf;
 
 pub static PROP: Prop = Prop {
     id: "C18",
-    rule: "module graphs of 2-6 modules written to disk, decoded from a proptest choice vector: each module is a file, a directory with main.koto, or both (the file must win); its top level prints a marker, imports other modules (edges may form cycles) through `import m`, `import m as a`, `from m import v`, `from m import v as w`, `from m import *` or a missing name, exports a value computed from what it imported, reassigns the exported name locally (must not alter the export), reads the export from a function defined before the export, optionally defines a passing or failing @test and a @main (which may itself throw), and optionally throws after exporting. The main script imports a random sequence of modules (with repeats) each inside try/catch, prints what it got, and is run twice on the same runtime; settings run_import_tests and export_top_level_ids are drawn per case. The complete stdout (which top levels, tests and @main functions ran, in which order, how often), the imported values and Koto::exports() are compared with a reference model of the import algorithm (run once, tests then @main, cycle = error, failed module leaves nothing cached and can be retried, completed dependencies stay cached). Second stream: scripts of 2-9 top-level assignments in every target form (plain, multi, compound, let, let-multi, map pattern, map pattern with `as`, map pattern nested in a multi-assignment, chained, inside if / for, from a function result, iterated right-hand side, let with a map pattern) run with export_top_level_ids on (every assigned name is in Koto::exports() with its final value, names local to functions are not, a later chunk on the same runtime reads them) and off (nothing is exported). Non-trivial: the graph has a cycle, a failing module, a repeated import or a file/directory conflict; a script with a form other than the plain one.",
+    rule: "module graphs of 2-6 modules written to disk, decoded from a proptest choice vector: each module is a file, a directory with main.koto, or both (the file must win); its top level prints a marker, imports other modules (edges may form cycles) through `import m`, `import m as a`, `from m import v`, `from m import v as w`, `from m import *`, the same with the module named by a string (`from 'm' import *`, `from 'm' import v`, `import 'm' as a`) or a missing name, exports a value computed from what it imported, reassigns the exported name locally (must not alter the export), reads the export from a function defined before the export, optionally defines a passing or failing @test and a @main (which may itself throw), and optionally throws after exporting. The main script imports a random sequence of modules (with repeats) each inside try/catch, prints what it got, and is run twice on the same runtime; settings run_import_tests and export_top_level_ids are drawn per case. The complete stdout (which top levels, tests and @main functions ran, in which order, how often), the imported values and Koto::exports() are compared with a reference model of the import algorithm (run once, tests then @main, cycle = error, failed module leaves nothing cached and can be retried, completed dependencies stay cached). Second stream: scripts of 2-9 top-level assignments in every target form (plain, multi, compound, let, let-multi, map pattern, map pattern with `as`, map pattern nested in a multi-assignment, chained, inside if / for, from a function result, iterated right-hand side, let with a map pattern) run with export_top_level_ids on (every assigned name is in Koto::exports() with its final value, names local to functions are not, a later chunk on the same runtime reads them) and off (nothing is exported). Non-trivial: the graph has a cycle, a failing module, a repeated import or a file/directory conflict; a script with a form other than the plain one.",
     assumptions: &["module files are written under engine/run per shard and removed afterwards", "the text of import errors is not judged, only that the import failed"],
     shards: |_| 16,
     run_shard,
@@ -25,6 +25,9 @@ pub enum ImportForm {
     FromValueAs,      // from m import v as w
     Wildcard,         // from m import *
     FromMissing,      // from m import nope
+    StrWildcard,      // from 'm' import *
+    StrFromValue,     // from 'm' import v
+    StrPlainAs,       // import 'm' as a
 }
 
 #[derive(Clone, Debug, Serialize, Deserialize)]
@@ -50,8 +53,8 @@ pub struct Case {
 
 fn gen_case(s: &mut Src) -> Case {
     let n = 2 + s.below(5) as usize;
-    let forms = [ImportForm::Plain, ImportForm::PlainAs, ImportForm::FromValue, ImportForm::FromValueAs, ImportForm::Wildcard, ImportForm::FromMissing];
-    let pick_form = |s: &mut Src| forms[s.weighted(&[4, 2, 4, 2, 3, 1])].clone();
+    let forms = [ImportForm::Plain, ImportForm::PlainAs, ImportForm::FromValue, ImportForm::FromValueAs, ImportForm::Wildcard, ImportForm::FromMissing, ImportForm::StrWildcard, ImportForm::StrFromValue, ImportForm::StrPlainAs];
+    let pick_form = |s: &mut Src| forms[s.weighted(&[4, 2, 4, 2, 3, 1, 2, 1, 1])].clone();
     let cyclic = s.below(4) == 0;
     let mut modules = vec![];
     for k in 0..n {
@@ -88,6 +91,9 @@ fn import_stmt(target: usize, form: &ImportForm, tag: &str) -> (String, String) 
         ImportForm::FromValueAs => (format!("from {m} import v{target} as w_{tag}"), format!("w_{tag}")),
         ImportForm::Wildcard => (format!("from {m} import *"), format!("v{target}")),
         ImportForm::FromMissing => (format!("from {m} import nope{target}"), "'unreachable'".to_string()),
+        ImportForm::StrWildcard => (format!("from '{m}' import *"), format!("v{target}")),
+        ImportForm::StrFromValue => (format!("from '{m}' import v{target}"), format!("v{target}")),
+        ImportForm::StrPlainAs => (format!("import '{m}' as sal_{tag}"), format!("sal_{tag}.v{target}")),
     }
 }
 
